@@ -71,7 +71,7 @@ def _(v):
 
     def term(kv):
         return SP.spow(SP.dget(conc, kv[0], 0.0), kv[1])
-    v.invariant(MassAction.active_conc_prod, 0, lambda env, i, seq: env["result"] == SP.sprod_prefix(seq, i, term))
+    v.invariant(MassAction.active_conc_prod, 0, lambda env, i, seq: env["@acc"] == SP.sprod_prefix(seq, i, term))
     cp = v.call(ma.active_conc_prod, conc, reaction=rxn)
     v.prove("only_active_reactants", v.eq(cp, SP.sprod(rxn.reac, term)))
     r = v.call(ma, conc, reaction=rxn)
